@@ -113,12 +113,17 @@ func (e *Env) Container() (container.Environment, error) {
 	}
 	mb := mount.NewBuilder().WithTmpfs("w", "size=8m,nr_inodes=4k").WithTmpfs("tmp", "size=8m,nr_inodes=4k")
 	b := container.Builder{Root: root, Mounts: mb.Mounts}
-	c, err := b.Build()
-	if err != nil {
-		return nil, err
+	// Build pings the fresh init with a short deadline: on a loaded machine give it several chances
+	var err error
+	for try := 0; try < 8; try++ {
+		var c container.Environment
+		if c, err = b.Build(); err == nil {
+			e.cont = c
+			return c, nil
+		}
+		time.Sleep(time.Duration(200*(try+1)) * time.Millisecond)
 	}
-	e.cont = c
-	return c, nil
+	return nil, err
 }
 
 // ResetContainer drops the container (after a runner error it may be unusable).
